@@ -47,3 +47,10 @@ classify = dyncommon.classify
 
 def run(tape):
     return dyncommon.run_dyn(tape, FEAT, BUG_MODELS, n_env_max=8)
+
+
+def run_case(case):
+    return dyncommon.run_dyn_case(case, BUG_MODELS)
+
+
+shrink_case = dyncommon.shrink_case
